@@ -9,7 +9,10 @@ spec:   spec/Steady.tla (actions Copy, FreezeExogenous, Run, Judge, Install, Rej
         ParameterInitialSteadyStateExcludedVariables is part of the state: a set of names (of series, of their
         lags, of nothing at all), including names that contain the names of other series (y_total / LAG_y_total
         next to y / LAG_y); the loop skips exactly the series whose name is on the list (invariant
-        C15_JudgesExactlyNonExcluded).  Three AsFound constants: the signed relative test and the near-zero
+        C15_JudgesExactlyNonExcluded).  Every series also has the KIND the parser gave it (solved / lagged /
+        decorative / exogenous); test and installation treat all kinds alike.  Schemes with a decorative series
+        pair "passes the relative test at a large level" (the solved stock) with every class of the decorative
+        function built on it.  AsFound constants: decorative untested / decorative excluded (seeded variants), the signed relative test and the near-zero
         branch that accepts any drift inside the band (both repaired in /repo), and exclusion by substring.
 TLC:    exhaustive check of the bounded instances (schemes: names of the variables, classes each may end in,
         exclusion options); every maximal behaviour (names, option, outcome of the run, class of every
@@ -24,7 +27,9 @@ replay: for every behaviour a REAL equation system is generated that realises th
             grow        x = g*LAG_x (g = 1.05, ...)         osc       x = -a*LAG_x + c  (a = 0.9, 1, 1.1)
             exo         an exogenous input whose path changes after k=0 (constant only if frozen)
             stable_exo  x = a*LAG_x + g with g exogenous   trend     x = q + d*t (excluded variables only)
-        plus, seeded, a decorative copy d = 1.0*x.  The generated system is simulated in plain Python floats
+            decorative  d = a*x + b built on the solved variable before it (a = +-1 first: gap = debt - target),
+                        run with equation reduction ON so that the parser classes it decorative
+        plus, seeded, a decorative copy d = 1.0*x; reduction is on in 70 % of the other systems.  The generated system is simulated in plain Python floats
         (the same right-hand side text is evaluated) and kept only if the class comes out as requested.
         Then the real solver is driven as SolveEquation() does: EquationSolver(text), the three
         ParameterInitialSteadyState* attributes, ExtractVariableList(), SetInitialConditions(),
@@ -52,6 +57,11 @@ Readings (the weaker one where the statement leaves a choice):
   demanding it: such border windows are not generated (a generated system whose class has drift zero / small /
   rel_small also has its simulated next change within the tolerance).  The one class change the grid does
   carry is a near-zero value leaving the near-zero band (`stays`).
+* Exclusion means "neither tested nor installed" (the code's documented meaning: the variable is ignored and
+  keeps its ordinary k=0 value).  A non-excluded variable that is COMPUTED FROM an excluded, unsettled one
+  (gap = 0.001*x1 - c with x1 excluded) is installed at its search value while x1 stays at x1(0), so it jumps in
+  the next period whatever the acceptance test does; the statement is not read as covering such systems and the
+  schemes never exclude a variable that a non-excluded one depends on.
 * "otherwise the search raises a no-equilibrium or value error" is demanded of well-formed systems; a system
   that names an undefined variable (the repository's own test expects NameError) is replayed but not judged
   on this clause.
@@ -283,7 +293,7 @@ def realise(name, cls, T, tol, rng, allow_trend=False, max_time=5):
             lag = 'LAG_' + name
             if 'exo_only' in b:
                 v0, v1 = b['exo_only']
-                return {'recipe': rname, 'target': [p, q], 'endo': [], 'init': [],
+                return {'recipe': rname, 'target': [p, q], 'endo': [], 'init': [], 'sim': (v0, v0, v0),
                         'exo': ['%s = [%s]*2 + [%s]*%d' % (name, num(v0), num(v1), max_time)], 'series': [name]}
             x0 = b['x0']
             if x0 is not None and (not finite(x0) or abs(x0) > 1e15):
@@ -305,10 +315,45 @@ def realise(name, cls, T, tol, rng, allow_trend=False, max_time=5):
                 continue        # border window of an unstable recurrence (see module docstring): not generated
             if b.get('no_lag'):
                 return {'recipe': rname, 'target': [p, q], 'endo': ['%s = %s' % (name, rhs)], 'init': [],
-                        'exo': [], 'series': [name]}
-            return {'recipe': rname, 'target': [p, q],
+                        'exo': [], 'series': [name], 'sim': (sp, sq, sn)}
+            return {'recipe': rname, 'target': [p, q], 'sim': (sp, sq, sn),
                     'endo': ['%s = %s' % (name, rhs), '%s = %s(k-1)' % (lag, name)],
                     'init': ['%s(0) = %s' % (name, num(x0))], 'exo': exo, 'series': [name, lag]}
+    return None
+
+
+def realise_decorative(name, cls, src_name, src_sim, tol, T, rng):
+    """A decorative variable  name = a*src + b  (nothing refers to it) whose final two values have class cls,
+    given the simulated final values (prev, last, next) of the solved variable it is built on.  a = +-1 is tried
+    first: a difference like  gap = debt - target  keeps the absolute drift and changes the level."""
+    sp, sq, sn = src_sim
+    pairs = cand_pairs(cls, tol, T)
+    rng.shuffle(pairs)
+    tries = []
+    for p, q in pairs[:10]:
+        if sq == sp:
+            if p == q:
+                tries.append((1.0, q - sq))
+            continue
+        for a in (1.0, -1.0):
+            tries.append((a, q - a * sq))
+        a_gen = (q - p) / (sq - sp)
+        tries.append((a_gen, q - a_gen * sq))
+    for a, bb in tries:
+        if not finite(a, bb) or a == 0 or abs(a) > 1e12:
+            continue
+        rhs = '%s*%s%s' % (num(a), src_name, plus(bb))
+        code = compile(rhs, '<rhs>', 'eval')
+        try:
+            d = [eval(code, {'__builtins__': {}}, {src_name: v}) for v in (sp, sq, sn)]
+        except (OverflowError, ZeroDivisionError):
+            continue
+        if classify(d[0], d[1], tol, d[2]) != cls:
+            continue
+        if cls['drift'] != 'large' and not steady(d[1], d[2], tol):
+            continue
+        return {'recipe': 'decorative_affine' if abs(a) != 1.0 else 'decorative_difference', 'target': [d[0], d[1]],
+                'endo': ['%s = %s' % (name, rhs)], 'init': [], 'exo': [], 'series': [name], 'sim': tuple(d)}
     return None
 
 
@@ -331,13 +376,14 @@ def build_case(beh, seed, tier):
     seed and the behaviour itself (so neither TLC's output order nor parallel execution matters)."""
     rng = random.Random('%d:%s' % (seed, core.canonical(beh)))
     names = [''.join(nm) for nm in beh['names']]
+    kinds = list(beh.get('kinds') or ['solved'] * len(names))
     option = sorted(''.join(nm) for nm in beh['option'])       # ParameterInitialSteadyStateExcludedVariables
     max_time = rng.choice([3, 5, 10])
     if tier == 'quick':
         T = rng.choice(HORIZONS_QUICK)
     else:
         T = rng.choice([rng.choice(HORIZONS_QUICK), rng.randint(5, 200), rng.randint(31, 200)])
-    reduction = rng.random() < 0.7
+    reduction = rng.random() < 0.7 or 'decorative' in kinds      # a decorative kind needs equation reduction
     base = {'behaviour': beh, 'T': T, 'max_time': max_time, 'wf': bool(beh['wf']), 'want': beh['runres']}
     if beh['runres'] != 'ok':
         tol = rng.choice(TOLS)
@@ -355,18 +401,23 @@ def build_case(beh, seed, tier):
     tols = list(TOLS)
     rng.shuffle(tols)
     for tol in tols:
-        parts, gen, recipes = [], {}, []
+        parts, gen, recipes, parts_of = [], {}, [], {}
         ok = True
         for i, v in enumerate(names):
             is_ex = v in option and ('LAG_' + v) in option      # on the list together with its lag
-            r = realise(v, beh['cls'][i], T, tol, rng, allow_trend=is_ex, max_time=max_time)
+            if kinds[i] == 'decorative':
+                src = max(j for j in range(i) if kinds[j] == 'solved')     # built on the solved variable before it
+                r = realise_decorative(v, beh['cls'][i], names[src], parts_of[src]['sim'], tol, T, rng)
+            else:
+                r = realise(v, beh['cls'][i], T, tol, rng, allow_trend=is_ex, max_time=max_time)
             if r is None:
                 ok = False
                 break
             parts.append(r)
+            parts_of[i] = r
             gen[v] = beh['cls'][i]
             recipes.append(r['recipe'])
-            if not is_ex and r['recipe'] != 'exo' and rng.random() < 0.25:
+            if not is_ex and kinds[i] != 'decorative' and r['recipe'] != 'exo' and rng.random() < 0.25:
                 parts.append({'endo': ['d_%s = 1.0*%s' % (v, v)], 'init': [], 'exo': []})     # decorative copy
         if ok:
             base.update(tol=tol, text=assemble(parts, max_time), excluded=option, reduction=reduction, gen=gen,
@@ -393,7 +444,7 @@ def canonical_cases(tier):
         for T, tol in grid:
             sp, sq, sn = simulate(rhs, x0, T, 'LAG_x1')
             cls = classify(sp, sq, tol, sn)
-            beh = {'n': 1, 'names': [['x', '1']], 'option': [['t']], 'excluded': [], 'wf': True, 'runres': 'ok',
+            beh = {'n': 1, 'names': [['x', '1']], 'kinds': ['solved'], 'option': [['t']], 'excluded': [], 'wf': True, 'runres': 'ok',
                    'cls': [cls], 'canonical': True}
             text = 'x1 = %s\nLAG_x1 = x1(k-1)\nx1(0) = %s\nexogenous\nMaxTime = 5\n' % (rhs, num(x0))
             out.append({'behaviour': beh, 'T': T, 'max_time': 5, 'wf': True, 'want': 'ok', 'tol': tol, 'text': text,
@@ -436,6 +487,11 @@ def execute(case):
         s.ExtractVariableList()
         s.SetInitialConditions()
         names = list(s.TimeSeries.keys())
+        kind_of = {}
+        for kind, lst in (('solved', s.Parser.Endogenous), ('lagged', s.Parser.Lagged),
+                          ('decorative', s.Parser.Decoration), ('exogenous', s.Parser.Exogenous)):
+            for x in lst:
+                kind_of.setdefault(x[0], kind)
         before = snapshot(s)
         k0 = dict((v, s.TimeSeries[v][0]) for v in names)
     except Exception as e:                                   # the generator wrote something unusable
@@ -528,6 +584,7 @@ def execute(case):
             further_ok = False
             obs['further_exc'] = type(e).__name__
     events = [{'ev': 'Begin', 'n': len(names), 'names': [list(v) for v in names],
+               'kinds': [kind_of.get(v, 'solved') for v in names],
                'option': [list(v) for v in case['excluded']], 'listed': idx_excl, 'wf': case['wf'],
                'T': T, 'toltext': num(tol)}]
     cs = obs.get('copy_same', final_same)
@@ -576,6 +633,8 @@ def signature(clause, case, events):
                 inside = [o for o in opt if e['name'] in o]
                 if inside:
                     return 'exclusion:series-whose-name-occurs-inside-an-excluded-name-is-skipped-not-installed'
+                if begin['kinds'][e['idx'] - 1] == 'decorative':
+                    return 'decorative:series-not-installed'
                 return 'exclusion:non-excluded-series-not-installed'
         # name the cause: among the non-excluded series of the accepted system, the class whose acceptance is
         # least defensible (a system is accepted only if every series passes, so one such series is the cause)
@@ -585,6 +644,10 @@ def signature(clause, case, events):
             if e['ev'] != 'Judge' or e['excl']:
                 continue
             c = run['cls'][e['idx'] - 1]
+            if begin['kinds'][e['idx'] - 1] == 'decorative' and c['drift'] == 'large' and \
+                    not (near_zero(c['prev']) and near_zero(c['last'])):
+                tags.append((0, 'decorative:series-with-large-drift-accepted-untested'))
+                continue
             if c['drift'] != 'large':
                 if not e['steady']:
                     tags.append((6, 'accepted-unsteady:%s:%s:%s' % (c['prev'], c['last'], c['drift'])))
@@ -689,6 +752,7 @@ def run(rep):
                        'larger magnitude; the further period is solved with the tolerance and sweep cap of the search',
                        'border windows of unstable recurrences (last change within tol, next change up to 1.1*tol) are '
                        'not generated',
+                       'an excluded variable is never an input of a non-excluded one',
                        'grid combinations that no single tolerance in {1e-2..1e-6} realises are counted in '
                        'unrealisable_combinations and not replayed',
                        'TLC 1.8 / tla2tools; the 3-variable full grid is model-checked exhaustively but replayed '
